@@ -102,8 +102,27 @@ def impl(case):
             out[str(i)] = ['RAISED', type(e).__name__]
             continue
         if m is not None:
-            out[str(i)] = [[k, canon_value(m[k])] for k in names]
-    obs = {'construct': 'ok', 'matches': out, 'n': len(paths_of(case))}
+            out[str(i)] = [[k, canon_value(m[k]) if k in m else 'MISSING-BINDING'] for k in names]
+    # the same lookups once more, on the same bound route: a match must not depend on what was looked up before
+    # (a sample is enough: every path that matched, every 50th of the others, and each list binding is emptied first -
+    # a consumer may do whatever it likes with the list it was given)
+    again = []
+    for i, p in enumerate(paths_of(case)):
+        if str(i) not in out and i % 50:
+            continue
+        try:
+            first = br.match_path(p)
+            if isinstance(first, dict):
+                for v in first.values():
+                    if isinstance(v, list):
+                        del v[:]
+            m = br.match_path(p)
+            second = None if m is None else [[k, canon_value(m[k]) if k in m else 'MISSING-BINDING'] for k in names]
+        except Exception as e:
+            second = ['RAISED', type(e).__name__]
+        if second != out.get(str(i)):
+            again.append([i, out.get(str(i)), second])
+    obs = {'construct': 'ok', 'matches': out, 'n': len(paths_of(case)), 'again': again[:5]}
     # a sample through a real request: the endpoint receives the same values
     if case.get('request_sample'):
         from harness import wsgi
@@ -444,6 +463,10 @@ def run(rep, b, tier, seed, only_cases=None):
                 nviol += 1
                 if nviol > 3:
                     break
+        for j, first, second in (o.get('again') or []):
+            rep.violation('pattern %r (%s) path %r: match_path gave %s, and on a later lookup of the same path %s'
+                          % (c['pattern'], c['mode'], paths[j], first, second),
+                          {'case': dict(c, extra=[paths[j]], L=0), 'path': paths[j], 'signature': 'match-depends-on-history'})
         for j, r in (o.get('requests') or {}).items():
             got = o['matches'].get(j)
             if got is not None and r != got:
